@@ -136,7 +136,8 @@ func c18Exec(ops []string) []string {
 		select {
 		case x := <-outCh:
 			return "fwd " + c18Raw(drainNow([]serf.Event{x}))
-		case <-time.After(2 * time.Second):
+		case <-time.After(c18Patience()):
+			c18Timeouts++
 			return "timeout"
 		}
 	}
@@ -240,7 +241,8 @@ func c18Exec(ops []string) []string {
 						break collect
 					}
 				}
-			case <-time.After(3 * time.Second):
+			case <-time.After(2 * c18Patience()):
+				c18Timeouts++
 			}
 			outs = append(outs, "got "+c18Raw(got))
 		default:
@@ -248,6 +250,17 @@ func c18Exec(ops []string) []string {
 		}
 	}
 	return outs
+}
+
+// c18Timeouts bounds the total time lost on an implementation that holds events back: after a few
+// full waits every further wait is short (the first timeouts already are the failing inputs).
+var c18Timeouts = 0
+
+func c18Patience() time.Duration {
+	if c18Timeouts < 4 {
+		return 1500 * time.Millisecond
+	}
+	return 40 * time.Millisecond
 }
 
 const c18Long = 3600000 // one hour in ms: a timer that never fires during a case
